@@ -435,6 +435,12 @@ func (fr *fmtRun) fnSessionReport(other map[int]bool) error {
 	if ok, seen := other[fr.sessSab]; !seen || ok {
 		return fmt.Errorf("vacuous binding: a session record whose read-back function has another name was accepted by Format_Trace")
 	}
+	clusters := map[string]int{}
+	defer func() {
+		if os.Getenv("VERIF_FMT_DUMP") != "" {
+			fmt.Println("FNSESS clusters (signature, route, definitions of the history):", clusters)
+		}
+	}()
 	for i, r := range fr.sessItems {
 		ok, seen := other[fr.sessID[i]]
 		if !seen {
@@ -445,6 +451,14 @@ func (fr *fmtRun) fnSessionReport(other map[int]bool) error {
 			continue
 		}
 		sig, note := fsAttribute(r)
+		key := sig + " " + r.Via
+		for _, op := range r.Hist {
+			switch op.Op {
+			case "named", "lam", "alias", "new":
+				key += fmt.Sprintf(" %s:%s%d%d", op.Op, op.N, op.S, op.B)
+			}
+		}
+		clusters[key]++
 		text := r.Text
 		if len(text) > 300 {
 			text = text[:300] + "..."
